@@ -998,7 +998,8 @@ class TransformingWaveform(Waveform):
             self._cached_data.update(outer_data)
 
         if output_array is None:
-            output_array = self._cached_data[channel]
+            # the caller owns the returned array and is allowed to modify it in place. The cache must not be exposed.
+            output_array = self._cached_data[channel].copy()
         else:
             output_array[:] = self._cached_data[channel]
 
